@@ -5,8 +5,8 @@ use educe::Educe;
 use core::cmp::Ordering;
 #[derive(Educe)]
 #[educe(PartialEq)]
-pub enum T { Unit {  } }
-pub fn values() -> Vec<T> { vec![T::Unit {  }] }
-pub fn show(x: &T) -> String { #[allow(unused_variables)] match x { T::Unit {  } => format!("Unit()") } }
-pub fn o_eq(a: &T, b: &T) -> bool { match (a, b) { (T::Unit {  }, T::Unit {  }) => true } }
+pub struct T(A<0>, A<0>);
+pub fn values() -> Vec<T> { vec![T(A(0), A(0)), T(A(0), A(1)), T(A(0), A(7)), T(A(1), A(0)), T(A(1), A(1)), T(A(1), A(7)), T(A(7), A(0)), T(A(7), A(1)), T(A(7), A(7))] }
+pub fn show(x: &T) -> String { #[allow(unused_variables)] match x { T(p0, p1) => format!("T({},{})", sv(p0), sv(p1)) } }
+pub fn o_eq(a: &T, b: &T) -> bool { match (a, b) { (T(a0, a1), T(b0, b1)) => (a0 == b0) && (a1 == b1) } }
 pub fn run(out: &mut Out) { let vs = values(); for a in &vs { for b in &vs { let e = o_eq(a, b); out.check((a == b) == e, "eq_8", "eq", || format!("{} == {} expected {}", show(a), show(b), e)); out.check((a != b) == !e, "eq_8", "ne", || format!("{} != {} expected {}", show(a), show(b), !e)); } } }
